@@ -202,6 +202,53 @@ def layouts : List (String × Layout) := [
   ("SmartBatteryProtectRecord", smartBatteryProtect), ("SmartLithiumRecord", smartLithium),
   ("SolarChargeRecord", solarCharger), ("VeBusRecord", veBus)]
 
+/-- The unit in which each converted (float) field is expressed: the layout's Units column taken through the row's own
+    conversion (minutes × 60 = s, 0.01 kWh × 10 = Wh, 0.01 K − 273.15 = °C, raw − 40 = °C; the DC energy meter's
+    temperature stays in K: no offset). The record structs declare a unit per field (`Unit:"…"` tag); C07 demands that the
+    value is converted to the unit the result declares. -/
+def units : List (String × List (String × String)) := [
+  ("AcChargerRecord", [("BatteryVoltage1", "V"), ("BatteryCurrent1", "A"), ("BatteryVoltage2", "V"), ("BatteryCurrent2", "A"), ("BatteryVoltage3", "V"), ("BatteryCurrent3", "A"), ("Temperature", "°C"), ("AcCurrent", "A")]),
+  ("BatteryMonitorRecord", [("Ttg", "s"), ("BatteryVoltage", "V"), ("AuxVoltage", "V"), ("MidVoltage", "V"), ("Temperature", "°C"), ("BatteryCurrent", "A"), ("ConsumedAh", "Ah"), ("StateOfCharge", "%")]),
+  ("DcDcConverterRecord", [("InputVoltage", "V"), ("OutputVoltage", "V")]),
+  ("DcEnergyMeterRecord", [("BatteryVoltage", "V"), ("AuxVoltage", "V"), ("Temperature", "K"), ("BatteryCurrent", "A")]),
+  ("GxDeviceRecord", [("BatteryVoltage", "V"), ("PvPower", "W"), ("Soc", "%"), ("BatteryPower", "W"), ("DcPower", "W")]),
+  ("InverterRecord", [("BatteryVoltage", "V"), ("AcApparentPower", "VA"), ("AcVoltage", "V"), ("AcCurrent", "A")]),
+  ("InverterRsRecord", [("BatteryVoltage", "V"), ("BatteryCurrent", "A"), ("PvPower", "W"), ("YieldToday", "Wh"), ("AcOutPower", "W")]),
+  ("LynxSmartBms", [("Ttg", "s"), ("BatteryVoltage", "V"), ("BatteryCurrent", "A"), ("Soc", "%"), ("ConsumedAh", "Ah"), ("Temperature", "°C")]),
+  ("MultiRsRecord", [("BatteryCurrent", "A"), ("BatteryVoltage", "V"), ("ActiveAcInPower", "W"), ("AcOutPower", "W"), ("PvPower", "W"), ("YieldToday", "Wh")]),
+  ("SmartBatteryProtectRecord", [("InputVoltage", "V"), ("OutputVoltage", "V")]),
+  ("SmartLithiumRecord", [("Cell1", "V"), ("Cell2", "V"), ("Cell3", "V"), ("Cell4", "V"), ("Cell5", "V"), ("Cell6", "V"), ("Cell7", "V"), ("Cell8", "V"), ("BatteryVoltage", "V"), ("BatteryTemperature", "°C")]),
+  ("SolarChargeRecord", [("BatteryVoltage", "V"), ("BatteryCurrent", "A"), ("YieldToday", "Wh"), ("PvPower", "W"), ("LoadCurrent", "A")]),
+  ("VeBusRecord", [("BatteryCurrent", "A"), ("BatteryVoltage", "V"), ("ActiveAcInPower", "W"), ("AcOutPower", "W"), ("Temperature", "°C"), ("Soc", "%")]) ]
+
+def unitOf (record field : String) : Option String :=
+  match units.find? (·.1 == record) with
+  | some (_, fs) => (fs.find? (·.1 == field)).map (·.2)
+  | none => none
+
+def Row.isFloat (r : Row) : Bool :=
+  match r.kind with
+  | .u | .s | .t40 | .neg => true
+  | _ => false
+
+/-- unit and conversion fit together: a field declared in °C is one whose conversion ends on the Celsius scale (raw − 40, or
+    0.01 K − 273.15), one declared in K has no offset, a time in s is the layout's minutes × 60; and every converted field of
+    every record has exactly one declared unit. -/
+def unitsOk : Bool :=
+  layouts.all (fun (name, L) =>
+    L.rows.all (fun r =>
+      match unitOf name r.name with
+      | none => !r.isFloat
+      | some u =>
+        r.isFloat &&
+        (if u == "°C" then (r.kind == .t40 || r.off == "-273.15") else (r.kind != .t40 && r.off != "-273.15")) &&
+        (if u == "K" then r.off == "0" else true) &&
+        (if u == "s" then r.mul == 60 else true))) &&
+  units.all (fun (name, fs) =>
+    match layouts.find? (·.1 == name) with
+    | none => false
+    | some (_, L) => fs.all (fun (f, _) => (L.rows.filter (fun r => r.name == f)).length ≥ 1))
+
 /-- every layout's record length is ⌈(last start + width) / 8⌉ -/
 def lengthOk (L : Layout) : Bool :=
   L.n == ((L.rows.map (fun r => r.start + r.width)).foldl max 0 + 7) / 8
